@@ -232,8 +232,11 @@ class Interp:
         self.loop_counter.append(0)
         try:
             try:
-                self.exec_block(clo.node.body, env)
-                result = None
+                if getattr(self, "nofork", False) and not gen:
+                    result = self._merged_block(list(clo.node.body), env)
+                else:
+                    self.exec_block(clo.node.body, env)
+                    result = None
             except _Return as r:
                 result = r.value
             if gen:
@@ -245,6 +248,41 @@ class Interp:
             self.files.pop()
             self.loop_counter.pop()
             self.yields = saved_yields
+
+    def _merged_block(self, stmts, env):
+        """Path-merging execution of a pure function body inside a no-fork region (the element function of a
+        lazy map over a symbolic sequence: its argument stands for EVERY element, so a fork on it would be a fork on
+        a bound variable).  `if` on a symbolic test evaluates both continuations on copies of the local
+        environment and joins the results with ite; anything but return / if / simple assignments is undecided."""
+        for idx, st in enumerate(stmts):
+            if isinstance(st, ast.Return):
+                return self.eval(st.value, env) if st.value is not None else None
+            if isinstance(st, ast.If):
+                rest = stmts[idx + 1:]
+                c = self.eval(st.test, env)
+                if isinstance(c, SBool):
+                    e1 = Env(env.parent, env.fn_globals, env.locals_set)
+                    e1.vars.update(env.vars)
+                    e2 = Env(env.parent, env.fn_globals, env.locals_set)
+                    e2.vars.update(env.vars)
+                    a = self._merged_block(list(st.body) + rest, e1)
+                    b = self._merged_block(list(st.orelse) + rest, e2)
+                    try:
+                        return wrap(z3.If(c.t, term(a), term(b)))
+                    except (TypeError, z3.Z3Exception, AttributeError):
+                        raise Undecided("branches of a no-fork region return non-scalar values")
+                if is_sym(c):
+                    raise Undecided("non-boolean symbolic test in a no-fork region")
+                return self._merged_block((list(st.body) if c else list(st.orelse)) + rest, env)
+            if isinstance(st, (ast.Assign, ast.AnnAssign, ast.AugAssign, ast.Pass, ast.Expr)):
+                if isinstance(st, ast.Expr) and isinstance(st.value, ast.Constant):
+                    continue  # docstring
+                if isinstance(st, ast.Assign) and not all(isinstance(t, ast.Name) for t in st.targets):
+                    raise Undecided("store to a non-local target in a no-fork region")
+                self.exec(st, env)
+                continue
+            raise Undecided(f"{type(st).__name__} statement in a no-fork region")
+        return None
 
     def enter_and_define(self, clo, args, kwargs=None):
         """Bind `args` to the parameters of `clo` and execute only the nested function definitions of
@@ -531,6 +569,8 @@ class Interp:
     # ------------------------------------------------------------------ truth & operators ---
     def truth(self, v):
         v = self.resolve(v)
+        if getattr(self, "nofork", False) and isinstance(v, Sym) and not isinstance(v, (SObj, Opaque, Closure)):
+            raise Undecided("truth test of a symbolic value inside a no-fork region (element function of a lazy map)")
         if isinstance(v, SBool):
             return self.ctx.branch(v.t)
         if isinstance(v, SInt):
